@@ -480,7 +480,7 @@ pub fn check(case: &Case, obs: &mut Obs) {
 const PART: PartCfg = PartCfg {
     name: "sampled",
     genome_len: 96,
-    cases_quick: 12000,
+    cases_quick: 30000,
     cases_thorough: 1_000_000,
     panic: PanicPolicy::Count,
 };
